@@ -800,7 +800,7 @@ func (st *State) execNext(fr *Frame, x *ssa.Next) {
 		ln := st.strLen(it.Str)
 		st.assume(Eq(okv, Lt(pos, ln)))
 		r := st.fresh("rune", SInt)
-		w := st.fresh("runew", SInt)
+		w := st.runeW(it.Str, pos)
 		st.assume(And(Ge(w, IntLit(1)), Le(w, IntLit(4)), Ge(r, IntLit(0))))
 		st.assume(Implies(okv, Le(Add(pos, w), ln)))
 		st.assume(Implies(okv, Eq(r, st.runeAt(it.Str, pos))))
@@ -828,6 +828,29 @@ func (st *State) execNext(fr *Frame, x *ssa.Next) {
 	fr.vals[x.Iter] = &nit
 	v := st.mapGet(st.heap, mt, it.Map, k)
 	fr.vals[x] = &TupleV{[]SVal{okv, k, v}}
+}
+
+// runeW: the width in bytes of the rune that range-over-string decodes at byte position pos of s
+func (st *State) runeW(s, pos *Term) *Term {
+	f := st.declareFun("str_runew", []Sort{SStr, SInt}, SInt)
+	return App(SInt, f, s, pos)
+}
+
+// runeStart: byte position p of s is where range-over-string starts decoding a rune (or the end of s).
+// The axioms are the facts about UTF-8 decoding the iteration relies on (assumed of the Go runtime).
+func (st *State) runeStart(s, p *Term) *Term {
+	f := st.declareFun("str_runestart", []Sort{SStr, SInt}, SBool)
+	if !st.declared["axiom:runestart"] {
+		st.declared["axiom:runestart"] = true
+		x, q, q2 := Const("s!qrs", SStr), Const("p!qrs", SInt), Const("q!qrs", SInt)
+		rs := func(a, b *Term) *Term { return App(SBool, f, a, b) }
+		st.assume(Forall([]*Term{x}, rs(x, IntLit(0)), st.strLen(x)))
+		w := st.runeW(x, q)
+		st.assume(Forall([]*Term{x, q}, Implies(rs(x, q), And(Ge(q, IntLit(0)), Le(q, st.strLen(x)),
+			Implies(Lt(q, st.strLen(x)), And(Ge(w, IntLit(1)), Le(w, IntLit(4)), Le(Add(q, w), st.strLen(x)), rs(x, Add(q, w)))))), rs(x, q)))
+		st.assume(Forall([]*Term{x, q, q2}, Implies(And(rs(x, q), Lt(q, q2), Lt(q2, Add(q, w)), Lt(q, st.strLen(x))), Not(rs(x, q2))), rs(x, q), rs(x, q2)))
+	}
+	return App(SBool, f, s, p)
 }
 
 func (st *State) runeAt(s, pos *Term) *Term {
